@@ -310,6 +310,20 @@ pub fn zstd_record(args: &Args) -> i32 {
         if fl.len() > 8 { let i = 6 + rng.below(fl.len() as u64 - 6) as usize; fl[i] ^= 0x10; }
         variants.push(("bitflip", fl));
         for (name, v) in variants {
+            if name == "bitflip" {
+                // a damaged frame may still be a frame, around a damaged container; reading that
+                // can run away, and C11 demands nothing of it beyond not panicking: isolate it
+                out.flush().unwrap();
+                let iso = isolated(4 << 30, 30, || match decompress_zstd(&v, size + 1000) { Ok(x) => vec![(x == *f) as u8], Err(_) => vec![2u8] });
+                let (res, equal) = match &iso {
+                    Ok(r) if r.first() == Some(&2) => ("err", false),
+                    Ok(r) => ("ok", r.first() == Some(&1)),
+                    Err(e) if e == "panic" => ("panic", false),
+                    Err(_) => ("err", false), // stopped by the resource limit: no verdict, treated like a refusal
+                };
+                writeln!(out, "{}", event("Decompress", json!({"frame":name,"cap":size+1000,"result":res,"equal":equal}))).unwrap();
+                continue;
+            }
             let r = guarded(|| decompress_zstd(&v, size + 1000));
             let (res, equal) = match &r { Ok(Ok(x)) => ("ok", x == f), Ok(Err(_)) => ("err", false), Err(_) => ("panic", false) };
             writeln!(out, "{}", event("Decompress", json!({"frame":name,"cap":size+1000,"result":res,"equal":equal}))).unwrap();
@@ -338,7 +352,7 @@ fn random_segs_small(rng: &mut Rng) -> Value {
 
 // ------------------------------------------------------------------- C12
 
-const GUARD: usize = 4096;
+const GUARD: usize = 1 << 20;
 
 struct Guarded {
     mem: Vec<u8>,
@@ -390,20 +404,43 @@ pub fn abi_record(args: &Args) -> i32 {
         caps.sort();
         caps.dedup();
         for cap in caps {
-            let mut g = Guarded::new(cap);
-            let mut rs: u64 = 0xDEAD_BEEF_DEAD_BEEF;
-            let p = g.ptr();
-            let status = guarded(|| unsafe { WrapperCompressZip(f.as_ptr(), f.len() as u64, p, cap as u64, &mut rs as *mut u64) });
-            let (st, unwound) = match status { Ok(s) => (s, false), Err(_) => (-99, true) };
-            // a zero status must come with a frame that decompresses back to the file
-            let mut valid = false;
-            if st == 0 && (rs as usize) <= cap {
-                let frame = g.data(rs as usize).to_vec();
-                valid = matches!(guarded(|| decompress_zstd(&frame, 1 << 27)), Ok(Ok(ref x)) if x == f);
-                if valid && best.is_none() { best = Some(frame); }
+            // every call runs in a forked child: a wrapper that writes far outside the buffer
+            // must not take the recorder down with it
+            out.flush().unwrap();
+            let iso = isolated(6 << 30, 120, || {
+                let mut g = Guarded::new(cap);
+                let mut rs: u64 = 0xDEAD_BEEF_DEAD_BEEF;
+                let p = g.ptr();
+                let status = guarded(|| unsafe { WrapperCompressZip(f.as_ptr(), f.len() as u64, p, cap as u64, &mut rs as *mut u64) });
+                let (st, unwound) = match status { Ok(s) => (s, false), Err(_) => (-99, true) };
+                let mut valid = false;
+                let mut frame: Vec<u8> = Vec::new();
+                if st == 0 && (rs as usize) <= cap {
+                    frame = g.data(rs as usize).to_vec();
+                    valid = matches!(guarded(|| decompress_zstd(&frame, 1 << 27)), Ok(Ok(ref x)) if x == f);
+                }
+                let mut v = Vec::new();
+                v.extend_from_slice(&st.to_le_bytes());
+                v.extend_from_slice(&rs.to_le_bytes());
+                v.push(unwound as u8);
+                v.push(g.guards_intact() as u8);
+                v.push(valid as u8);
+                v.extend_from_slice(&frame);
+                v
+            });
+            match iso {
+                Ok(v) if v.len() >= 15 => {
+                    let st = i32::from_le_bytes(v[0..4].try_into().unwrap());
+                    let rs = u64::from_le_bytes(v[4..12].try_into().unwrap());
+                    let (unwound, guards, valid) = (v[12] != 0, v[13] != 0, v[14] != 0);
+                    if valid && best.is_none() { best = Some(v[15..].to_vec()); }
+                    writeln!(out, "{}", event("Compress", json!({"cap":cap,"status":st,"unwound":unwound,"rs_set": rs != 0xDEAD_BEEF_DEAD_BEEF,
+                        "rs": if rs == 0xDEAD_BEEF_DEAD_BEEF { 0 } else { rs.min(1 << 30) },"guards":guards,"valid":valid}))).unwrap();
+                }
+                other => {
+                    writeln!(out, "{}", event("Crashed", json!({"call":"WrapperCompressZip","cap":cap,"how":format!("{:?}", other.err())}))).unwrap();
+                }
             }
-            writeln!(out, "{}", event("Compress", json!({"cap":cap,"status":st,"unwound":unwound,"rs_set": rs != 0xDEAD_BEEF_DEAD_BEEF,
-                "rs": if rs == 0xDEAD_BEEF_DEAD_BEEF { 0 } else { rs.min(1 << 30) },"guards":g.guards_intact(),"valid":valid}))).unwrap();
         }
         if let Some(frame) = best {
             let need2 = f.len();
